@@ -105,7 +105,8 @@ fn commands() -> HashMap<&'static str, command::BuiltIn<State>> {
 
 enum Outcome {
     Done { out: String, errs: usize },
-    Fatal(String),
+    /// message, characters delivered before the fatal error
+    Fatal(String, String),
     /// site, message, characters delivered before the panic
     Panic(String, String, String),
 }
@@ -134,7 +135,7 @@ fn run_program(src: &str, em: i32, ex: i32) -> Outcome {
             }
             Outcome::Done { out, errs: ERRORS.with(|e| e.get()) }
         }
-        Ok(Err(msg)) => Outcome::Fatal(msg),
+        Ok(Err(msg)) => Outcome::Fatal(msg, out),
         Err((site, msg)) => Outcome::Panic(site, msg, out),
     }
 }
@@ -240,8 +241,9 @@ fn emit_program(out: &mut Out, steps: &[Step], em: i32, ex: i32, tag: &str) {
             ev["out"] = json!(codes(&o));
             ev["errs"] = json!(errs);
         }
-        Outcome::Fatal(msg) => {
+        Outcome::Fatal(msg, o) => {
             ev["panic"] = json!(["fatal-error", msg]);
+            ev["out"] = json!(codes(&o));
         }
         Outcome::Panic(site, msg, o) => {
             ev["panic"] = json!([site, msg]);
@@ -283,6 +285,8 @@ const B32: [i64; 18] = [
 
 struct Gen {
     rng: Rng,
+    /// the last call of tail() appended something
+    tailed: bool,
 }
 
 fn ends_blank(v: &[Tok]) -> bool {
@@ -383,6 +387,10 @@ impl Gen {
 
     /// a numeric constant (no sign); returns true if it is decimal
     fn constant(&mut self, v: &mut Vec<Tok>, n: u64, allow_radix: bool) -> bool {
+        self.constant_sp(v, n, allow_radix, true)
+    }
+
+    fn constant_sp(&mut self, v: &mut Vec<Tok>, n: u64, allow_radix: bool, hex_space: bool) -> bool {
         let kind = if allow_radix { self.rng.below(10) } else { 0 };
         match kind {
             7 => {
@@ -392,7 +400,9 @@ impl Gen {
             8 | 9 => {
                 push_str(v, &format!("\"{n:X}"));
                 // a following unit in capitals must not be read as hex digits
-                v.push(Tok::Ch(' '));
+                if hex_space {
+                    v.push(Tok::Ch(' '));
+                }
                 false
             }
             _ => {
@@ -439,11 +449,33 @@ impl Gen {
                     v.push(Tok::Ch(' '));
                 }
             }
+            2 => {
+                // a constant directly followed by characters that may or may not belong to it:
+                // whatever the scanner leaves is typeset and shows up in the output
+                let n = self.big_unsigned();
+                self.constant_sp(v, n, true, false);
+                const TAIL: [&str; 14] = ["8", "9", "a", "f", "g", "G", "A", "F", "pt", ".5", "x", "e", "l", "-1"];
+                let t = *self.rng.pick(&TAIL);
+                push_str(v, t);
+            }
             _ => {
                 let n = self.big_unsigned();
                 self.constant(v, n, true);
                 self.maybe_space(v, 1, 2);
             }
+        }
+    }
+
+    /// characters after a complete dimension or glue: left for the typesetter
+    fn tail(&mut self, v: &mut Vec<Tok>) {
+        self.tailed = false;
+        // (not after a blank: TeX's scan_keyword skips blanks before a further `l' of fil, texcraft
+        // does not; that difference belongs to keyword scanning, not to this property)
+        if self.rng.chance(1, 10) && !ends_blank(v) && !matches!(v.last(), Some(Tok::Cs1(_))) {
+            const TAIL: [&str; 8] = ["l", "L", "x", "8", "pt", "fil", "em", ".5"];
+            let t = *self.rng.pick(&TAIL);
+            push_str(v, t);
+            self.tailed = true;
         }
     }
 
@@ -810,7 +842,7 @@ fn vm_events(args: &Args) -> i32 {
     let n: u64 = args.num("n", 1000);
     let pairs: u64 = args.num("pairs", 1);
     let mut out = Out::new(args.str("out"));
-    let mut g = Gen { rng: Rng::new(seed ^ 0xC06) };
+    let mut g = Gen { rng: Rng::new(seed ^ 0xC06), tailed: false };
 
     // ---- (a) every ordered pair of boundary operands, for each primitive and register type
     if pairs != 0 {
@@ -927,6 +959,7 @@ fn vm_events(args: &Args) -> i32 {
                 // a dimension constant
                 let mut b = Vec::new();
                 g.dimen_text(&mut b, false, &[]);
+                g.tail(&mut b);
                 steps.push(g.step_set(2, 1, b));
                 steps.push(the(2, 1));
             }
@@ -934,6 +967,7 @@ fn vm_events(args: &Args) -> i32 {
                 // a glue constant
                 let mut b = Vec::new();
                 g.glue_text(&mut b, &[]);
+                g.tail(&mut b);
                 steps.push(g.step_set(3, 1, b));
                 steps.push(the(3, 1));
             }
@@ -994,10 +1028,12 @@ fn vm_events(args: &Args) -> i32 {
                         }
                         (0 | 1, 2) => {
                             g.dimen_text(&mut b, false, &regs);
+                            g.tail(&mut b);
                             steps.push(g.step_set(t, i, b));
                         }
                         (0 | 1, _) => {
                             g.glue_text(&mut b, &regs);
+                            g.tail(&mut b);
                             steps.push(g.step_set(t, i, b));
                         }
                         (2 | 3, 1) => {
@@ -1033,11 +1069,12 @@ fn vm_events(args: &Args) -> i32 {
         emit_program(&mut out, &steps, em, ex, "random");
 
         // ---- (c) what \the printed is scanned back (print -> scan round trip inside the VM)
-        if k % 8 == 1 || k % 8 == 3 {
+        if (k % 8 == 1 || k % 8 == 3) && !g.tailed {
             let src = render(&steps);
             if let Outcome::Done { out: o, errs: 0 } = run_program(&src, em, ex) {
                 if let Some(text) = o.strip_suffix(';') {
-                    if !text.contains(';') && !text.is_empty() {
+                    let starts_ok = text.starts_with(|c: char| c == '-' || c.is_ascii_digit());
+                    if !text.contains(';') && starts_ok {
                         let t = steps[0].t;
                         let s2 = vec![plain_set(t, 2, text), the(t, 2)];
                         emit_program(&mut out, &s2, em, ex, "reread");
@@ -1055,7 +1092,7 @@ fn run_one(args: &Args) -> i32 {
     let src = args.req("src");
     match run_program(src, args.num("em", 655360), args.num("ex", 282168)) {
         Outcome::Done { out, errs } => println!("{}", json!({"out": out, "errs": errs})),
-        Outcome::Fatal(m) => println!("{}", json!({"fatal": m})),
+        Outcome::Fatal(m, o) => println!("{}", json!({"fatal": m, "out": o})),
         Outcome::Panic(s, m, o) => println!("{}", json!({"panic": [s, m], "out": o})),
     }
     0
